@@ -91,7 +91,13 @@ def run_plan(pid, tier, work, plan):
         cov["transitions"] += ex.pop("_trans", 0)
         cov["traces_validated_against_impl"] += ex.pop("_traces", 0)
         cov.update(ex)
+    if plan.get("api"):
+        import apicheck
+        ex = apicheck.run(work, v, pid, thorough)
+        cov["traces_validated_against_impl"] += ex.pop("_traces", 0)
+        cov.update(ex)
     rc = v.finish()
-    vlib.write_evidence(pid, tier, plan.get("level", "model_checking"), cov, plan.get("assumptions", []), time.time() - t0,
+    vlib.write_evidence(pid, tier, plan.get("level", "model_checking"), cov, plan.get("assumptions", []) + (
+        ["public API layer: sequential programs (plain and loading caches; cost function, doorkeeper, removal listener; every write followed by Wait) through cache.go/builder.go, validated against the sequential observer ApiTrace.tla"] if plan.get("api") else []), time.time() - t0,
                         len(v.violations))
     return rc
